@@ -1,7 +1,7 @@
 """C04 — range membership equals the interval-set meaning of the vers constraints."""
 from harness import common, layerb as B, schemes as S
 
-from univers.version_constraint import contains_version
+from univers.version_constraint import VersionConstraint, contains_version
 
 MODULES = ["Univers.Props.C04", "Univers.Props.Schemes", "Univers.Text.EndToEndThm"]
 LEVEL = "proof"
@@ -77,6 +77,7 @@ def correspondence(ctx):
                         "scheme": name})
     _range_stream(ctx)
     _end_to_end(ctx)
+    _cross_scheme(ctx)
 
 
 def _oneliner(name, d):
@@ -208,3 +209,41 @@ def _end_to_end(ctx):
                 ctx.disagree(stream, "e2e %r %r" % (t, xt), impl, a, True, rep, spec=spec)
             elif impl != a:
                 ctx.disagree(stream, "e2e %r %r" % (t, xt), impl, a, False, rep, spec=spec)
+
+
+def _cross_scheme(ctx):
+    """the same constraint texts and the same tested text under several schemes, interleaved in one process"""
+    rng = ctx.rng("c04-cross")
+    tables = B.cross_tables(need_hash=False)
+    work = []
+    for _ in range(400 if ctx.thorough else 150):
+        n = rng.choice([1, 2, 2, 3])
+        texts = rng.sample(B.SHARED_TEXTS, n + 1)
+        probe, texts = texts[0], texts[1:]
+        cmps = [rng.choice(B.CMPRS) for _ in range(n)]
+        names = [nm for nm in tables if all(t in tables[nm][0] for t in texts + [probe])]
+        rng.shuffle(names)
+        for nm in names:
+            rk = tables[nm][0]
+            order = sorted(zip(cmps, texts), key=lambda ct: rk[ct[1]])
+            if len({rk[t] for _, t in order}) != n:
+                continue
+            work.append((nm, order, probe))
+    lines = ["contains %s %d" % (B.cons_line([(c, 2 * tables[nm][0][t] + 2) for c, t in order]), 2 * tables[nm][0][probe] + 2)
+             for nm, order, probe in work]
+    answers = common.run_model(lines) if lines else []
+    for (nm, order, probe), line, ans in zip(work, lines, answers):
+        stream = "cross-scheme:" + nm
+        objs = tables[nm][1]
+        cons = tuple(VersionConstraint(comparator=B.TXT[c], version=objs[t]) for c, t in order)
+        impl = B.res_bool(lambda: contains_version(objs[probe], cons))
+        model, spec, wf = ans.split(" ")
+        ctx.count(stream, key=line + "|" + probe + "|" + ",".join(t for _, t in order), nontrivial=len(order) >= 2,
+                  branch="wf" if wf == "true" else "not-wf")
+        d = {"scheme": nm, "constraints": [B.TXT[c] + t for c, t in order], "version": probe,
+             "history": "the same texts were tested under other schemes earlier in this process"}
+        if wf == "true" and impl != "ok:" + spec:
+            d["python"] = _oneliner(nm, d)
+            ctx.disagree(stream, line, impl, model, True, d, spec=spec)
+        elif impl != model:
+            ctx.disagree(stream, line, impl, model, False, d, spec=spec)
